@@ -150,8 +150,8 @@ class C15(Check):
         "Distinct by digest."
     )
     assumptions = ["write_union_type=False output is compared with the plain encoding only (it is documented as not re-readable)"]
-    required_labels = ["s:union", "s:map", "s:array", "s:ref", "s:enum", "s:fixed", "s:bytes", "top:non-record", "multi-record", "defaults-deleted", "plain-union"]
-    quick = (1500, 1)
+    required_labels = ["s:union", "s:map", "s:array", "s:ref", "s:enum", "s:fixed", "s:bytes", "top:non-record", "multi-record", "defaults-deleted", "plain-union", "nested-container-default"]
+    quick = (3500, 1)
     thorough = (8000, 16)
 
     def __init__(self):
@@ -166,6 +166,8 @@ class C15(Check):
         @st.composite
         def cases(draw):
             d = gen.D(draw)
+            if d.p(0.08):
+                return self.nested_default_case(d)
             ir, table, js = gen.build_schema(d, feat)
             gen.check_truth(ir, table, js)
             dg = JsonData(d, feat, table)
@@ -173,6 +175,26 @@ class C15(Check):
             return {"schema": js, "records": [dg.gen(ir, 5) for _ in range(n)], "write_union_type": not d.p(0.15), "parsed": d.p(0.3)}
 
         return cases()
+
+    def nested_default_case(self, d):
+        """Defaults that are nested containers; some records omit the field, several records per text."""
+        fields = [
+            {"name": "xss", "type": {"type": "array", "items": {"type": "array", "items": "int"}}, "default": d.choice([[[1, 2], [3]], [[]], [[7]]])},
+            {"name": "ma", "type": {"type": "map", "values": {"type": "array", "items": "string"}}, "default": d.choice([{"k": ["a", "b"]}, {"": [""]}])},
+            {"name": "rd", "type": {"type": "record", "name": "InnerD", "fields": [{"name": "flags", "type": {"type": "array", "items": "boolean"}}, {"name": "n", "type": "int"}]}, "default": {"flags": [True, False], "n": 1}},
+            {"name": "mm", "type": {"type": "map", "values": {"type": "map", "values": "long"}}, "default": {"o": {"i": 1}}},
+            {"name": "plain", "type": "int"},
+        ]
+        keep = [f for f in fields[:4] if d.p(0.7)] + [fields[4]]
+        n = d.rng(2, 4)
+        recs = []
+        for _ in range(n):
+            r = {"plain": d.rng(-5, 5)}
+            for f in keep[:-1]:
+                if d.p(0.4):
+                    r[f["name"]] = {"xss": [[9]], "ma": {"q": []}, "rd": {"flags": [], "n": 0}, "mm": {}}[f["name"]]
+            recs.append(r)
+        return {"schema": {"type": "record", "name": "NestedDefaults", "fields": keep}, "records": recs, "write_union_type": True, "parsed": d.p(0.5)}
 
     def fixed_cases(self, tier):
         base = {"write_union_type": True, "parsed": False}
@@ -239,6 +261,8 @@ class C15(Check):
                 labels.add("excluded:default-with-nested-union")
             if dfl and lines:
                 labels.add("defaults-deleted")
+                if len(lines) >= 2 and any(isinstance(f["default"], (list, dict)) and any(isinstance(x, (list, dict)) for x in (f["default"].values() if isinstance(f["default"], dict) else f["default"])) for f in dfl):
+                    labels.add("nested-container-default")
                 objs = [json.loads(l) for l in lines]
                 exp = []
                 for o, n in zip(objs, norms):
